@@ -645,7 +645,17 @@ class C14:
                     if delivered:
                         bump(probes, 'interrupt_delivered' if payload == 'SimInterrupt' else 'memerr_delivered')
                         if out[0] == 'ok':
-                            bump(probes, 'interrupt_swallowed_by_a_handler')    # C14 does not state that it must propagate: counted, not judged
+                            # C14 does not state that the fault must propagate - but a call that RETURNS NORMALLY returns the result a
+                            # fresh copy gives (the faulted operation may raise, it may never return wrong data: DESIGN 3.6)
+                            bump(probes, 'interrupt_swallowed_by_a_handler')
+                            try:
+                                Fi, _ = fresh()
+                                rFi = call(lambda: run_op(Fi, op, 'F'))
+                                if ('ok', out[1]) != rFi:
+                                    add_v('differs-from-fresh-copy', f'differs-from-fresh-copy/{k}/returned-normally-after-injected-{payload}',
+                                          *self._clip_pair(rFi, ('ok', out[1])), op=k, index=idx, payload=payload)
+                            except Exception:
+                                pass
                     after_op('interrupted-' + k, idx)
                     continue
                 # ---- the same operation on a freshly imported copy, imported at this moment and never touched before
